@@ -51,6 +51,21 @@ struct ChainSpec {
 	at: i64,
 	/// 0 server auth, 1 client auth
 	purpose: u8,
+	/// how the window ends are handed to rcgen: 0 whole seconds UTC; 1 with a sub-second part;
+	/// 2 windows that are open to the far end (T[9]) end in 2055 (GeneralizedTime); 3 both; 4 as 3 in a non-UTC offset.
+	/// The instants (to the second) and therefore the expected verdicts are the same in every flavour.
+	tflav: u8,
+}
+
+const FAR_END: i64 = 2_700_000_000;
+
+fn tspec(unix: i64, flav: u8, end: bool) -> TimeSpec {
+	let unix = if flav >= 2 && end && unix == T[9] { FAR_END } else { unix };
+	TimeSpec {
+		unix,
+		nanos: if flav == 1 || flav >= 3 { if end { 999_999_999 } else { 123_456_789 } } else { 0 },
+		offset: if flav == 4 { if end { -34_200 } else { 20_700 } } else { 0 },
+	}
 }
 
 fn ca_node() -> Node {
@@ -72,6 +87,7 @@ fn base(depth: usize) -> ChainSpec {
 		leaf_window: (T[0], T[9]),
 		at: T[5],
 		purpose: 0,
+		tflav: 0,
 	}
 }
 
@@ -199,8 +215,8 @@ fn build(c: &ChainSpec, keys: &[&PoolKey], rng: &mut Rng) -> Result<Built, Strin
 		s.is_ca = node.is_ca.clone();
 		s.ku = node.ku;
 		s.nc = node.nc.clone();
-		s.not_before = TimeSpec::utc(node.window.0);
-		s.not_after = TimeSpec::utc(node.window.1);
+		s.not_before = tspec(node.window.0, c.tflav, false);
+		s.not_after = tspec(node.window.1, c.tflav, true);
 		s
 	};
 	let dup = |node: &Node, mut p: rcgen::CertificateParams| -> rcgen::CertificateParams {
@@ -240,8 +256,8 @@ fn build(c: &ChainSpec, keys: &[&PoolKey], rng: &mut Rng) -> Result<Built, Strin
 	}];
 	l.sans = c.leaf_sans.clone();
 	l.ekus = c.leaf_ekus.clone();
-	l.not_before = TimeSpec::utc(c.leaf_window.0);
-	l.not_after = TimeSpec::utc(c.leaf_window.1);
+	l.not_before = tspec(c.leaf_window.0, c.tflav, false);
+	l.not_after = tspec(c.leaf_window.1, c.tflav, true);
 	let leaf = l
 		.to_rcgen(None)
 		.signed_by(&kleaf.kp, signer_cert, &signer_key.kp)
@@ -317,7 +333,11 @@ fn directed() -> Vec<(String, ChainSpec)> {
 				_ => c.root.window = (T[3], T[6]),
 			}
 			c.at = at;
-			v.push((format!("validity:{}:{}", who, tn), c));
+			for flav in 0..5u8 {
+				let mut c = c.clone();
+				c.tflav = flav;
+				v.push((format!("validity:{}:{}:time-flavour{}", who, tn, flav), c));
+			}
 		}
 	}
 	// DNS name constraints
@@ -428,6 +448,7 @@ fn random_case(rng: &mut Rng) -> ChainSpec {
 			c.inters[i].is_ca = IsCaSpec::Ca(Some(rng.below(3) as u8));
 		}
 	}
+	c.tflav = if rng.chance(1, 2) { 0 } else { 1 + rng.below(4) as u8 };
 	if rng.chance(1, 3) {
 		c.leaf_window = (T[2], T[7]);
 		c.inters[0].window = (T[1], T[8]);
